@@ -78,7 +78,9 @@ let verdict (root : xml) : string * string * bool * bool =
   let v = val_math_env std_vars std_units root in
   let a = ana_math_env std_vars root in
   let vs = if v = [] then "-" else String.concat "," (List.map (fun r -> implode (rule_name r)) v) in
-  let as_, ok = match a with Ok _ -> "ok", true | Crash s -> implode (site_name s), false in
+  let as_, ok = match a with
+    | Ok _ -> "ok", true
+    | Crash s -> (if site_certain s then "must:" else "may:") ^ implode (site_name s), false in
   (vs, as_, v = [], ok)
 
 let rec nat_of_int n = if n <= 0 then O else S (nat_of_int (n - 1))
@@ -98,20 +100,32 @@ let () =
      with End_of_file -> ());
     close_in ic
   | "enum" ->
-    let d = int_of_string Sys.argv.(2) and ml = int_of_string Sys.argv.(3) and md = int_of_string Sys.argv.(4) in
-    let ts = trees (nat_of_int d) (nat_of_int ml) in
-    let total = ref 0 and acc = ref 0 and gaps = ref 0 and rej = ref 0 in
-    List.iter (fun e ->
-        List.iter (fun root ->
-            incr total;
-            let (vs, as_, vok, aok) = verdict root in
-            if vok then begin
-              incr acc;
-              if not aok then incr gaps;
-              Printf.printf "A %s val=%s ana=%s\n" (hexencode (body_of root)) vs as_
-            end else begin
-              incr rej;
-              if !rej mod md = 0 then Printf.printf "R %s val=%s ana=%s\n" (hexencode (body_of root)) vs as_
-            end) (in_contexts e)) ts;
-    Printf.printf "# total=%d accepted=%d gaps=%d\n" !total !acc !gaps
-  | _ -> prerr_endline "usage: driver eval <cases> | enum <depth> <maxlen> <mod>"; exit 2
+    (* enum <d1|d2|d3> <nleaves> <cap per verdict class> <offset>:  the whole set is evaluated by the model; of each
+       verdict class (validator verdict x analyser verdict) at most <cap> members are printed, taken at a regular
+       stride starting at <offset> (so that different seeds replay different members on the library) *)
+    let nl = nat_of_int (int_of_string Sys.argv.(3)) in
+    let cap = int_of_string Sys.argv.(4) and off = int_of_string Sys.argv.(5) in
+    let roots = match Sys.argv.(2) with
+      | "d1" -> enum_d1 | "d2" -> enum_d2 nl | "d3" -> enum_d3 nl | _ -> failwith "set" in
+    let classes : (string, (string * string * string) list ref * int ref) Hashtbl.t = Hashtbl.create 64 in
+    let total = ref 0 and acc = ref 0 and gaps = ref 0 in
+    List.iter (fun root ->
+        incr total;
+        let (vs, as_, vok, aok) = verdict root in
+        if vok then incr acc;
+        if vok && not aok then incr gaps;
+        let key = (if vok then "A " else "R ") ^ (if vok then as_ else vs) in
+        let (l, n) = try Hashtbl.find classes key with Not_found -> let e = (ref [], ref 0) in Hashtbl.add classes key e; e in
+        incr n;
+        l := (body_of root, vs, as_) :: !l) roots;
+    let keys = List.sort compare (Hashtbl.fold (fun k _ a -> k :: a) classes []) in
+    List.iter (fun key ->
+        let (l, n) = Hashtbl.find classes key in
+        let arr = Array.of_list (List.rev !l) in
+        let stride = max 1 ((!n + cap - 1) / cap) in
+        Array.iteri (fun i (b, vs, as_) ->
+            if i mod stride = off mod stride then
+              Printf.printf "%s %s val=%s ana=%s\n" (String.sub key 0 1) (hexencode b) vs as_) arr) keys;
+    Printf.printf "# total=%d accepted=%d gaps=%d classes=%d\n" !total !acc !gaps (List.length keys);
+    List.iter (fun key -> let (_, n) = Hashtbl.find classes key in Printf.printf "# class %s : %d\n" key !n) keys
+  | _ -> prerr_endline "usage: driver eval <cases> | enum <set> <nleaves> <cap> <offset>"; exit 2
